@@ -25,7 +25,7 @@ RULE = ("one run = one workflow and call history on one output directory: FITS a
         "distinct = sha1 of (scheduler traces + workload)")
 COMPONENTS = {
     "real": ["toasty.tile_fits / FitsTiler.tile", "MultiTanProcessor", "Builder (tile_base_as_study, toast_base, cascade, apply_wcs_info, write_index_rel_wtml)",
-             "StudyTiling", "PyramidIO path schemes", "toast.sample_layer(_filtered) + WcsSampler", "PipelineManager.process_todos", "wwt_data_formats (WTML writer / reader)"],
+             "StudyTiling", "PyramidIO path schemes", "toast.sample_layer(_filtered) + WcsSampler", "PipelineManager.process_todos", "toasty.cli entrypoint (tile-study, cascade)", "wwt_data_formats (WTML writer / reader)"],
     "stub": ["multiprocessing.Queue/Event/Process (model)", "clock", "pipeline image source (stub that study-tiles a generated image)"],
 }
 ASSUMPTIONS = [
@@ -42,7 +42,7 @@ MANIFEST = {
 }
 BUDGET = {"quick": (150, 80), "thorough": (6000, 1500)}
 REQUIRED_PROBES = {"quick": ["wf_tile_fits_tan", "wf_study", "history_reuse", "history_override"],
-                   "thorough": ["wf_tile_fits_tan", "wf_tile_fits_toast", "wf_study", "wf_allsky", "wf_pipeline", "history_reuse", "history_override", "scheme_LXY"]}
+                   "thorough": ["wf_tile_fits_tan", "wf_tile_fits_toast", "wf_study", "wf_allsky", "wf_pipeline", "wf_cli_study", "history_reuse", "history_override", "scheme_LXY"]}
 CHUNK = 3
 SELFTEST_EVERY = 30
 FRESH_SELFTEST = 3
@@ -248,7 +248,7 @@ def run_one(ch, env):
     from toasty import TilingMethod
     from toasty.builder import Builder
 
-    wf = ("tile_fits_tan", "study", "tile_fits_tan", "allsky", "pipeline", "tile_fits_toast", "study")[ch.draw(7, kind="workflow")]
+    wf = ("tile_fits_tan", "study", "tile_fits_tan", "allsky", "pipeline", "tile_fits_toast", "study", "cli_study")[ch.draw(8, kind="workflow")]
     workers = (1, 2, 3)[ch.draw(3, kind="workers")]
     d = env.fresh_dir()
     out = os.path.join(d, "out")
@@ -368,6 +368,27 @@ def run_one(ch, env):
                 v = check_wtml_vs_tree(out, label, ref)
                 if v is None:
                     v = check_builder_vs_wtml(b, out, label)
+                if v is not None:
+                    state["violation"] = viol(PROP, v[0], v[1])
+            res["nontrivial"] = lv >= 1
+        elif wf == "cli_study":
+            # the command-line route: `toasty tile-study` writes the base layer and the WTML, `toasty cascade` the rest
+            from PIL import Image as PILImage
+            from toasty import cli as tcli
+            arr = study_image(ch, "rgb")
+            lv, ref = study_tiles(arr)
+            src = os.path.join(d, "input.png")
+            PILImage.fromarray(arr).save(src)
+            res["config"].update(shape=list(arr.shape), tile_levels=lv)
+            label = "toasty tile-study + cascade CLI (%dx%d, %d workers)" % (arr.shape[1], arr.shape[0], workers)
+
+            def call():
+                tcli.entrypoint(["tile-study", "--placeholder-thumbnail", "--outdir", out, src])
+                tcli.entrypoint(["cascade", "--start", str(lv), "-j", str(workers), out])
+
+            under_sim(call, label)
+            if not state["violation"] and not state["skip"]:
+                v = check_wtml_vs_tree(out, label, ref)
                 if v is not None:
                     state["violation"] = viol(PROP, v[0], v[1])
             res["nontrivial"] = lv >= 1
